@@ -553,6 +553,11 @@ class ktensor:
                 "components in ktensor."
             )
 
+        if weight_factor is not None:
+            assert isinstance(weight_factor, (int, np.integer)) and (
+                0 <= weight_factor < self.ndims
+            ), "Parameter weight_factor is invalid; must be a mode of the ktensor"
+
         # TODO there is a relationship here between normalize and arrange that repeats
         #  tasks. Can this be made to be more efficient? ensure that factor matrices
         #  are normalized
@@ -1390,6 +1395,11 @@ class ktensor:
                 "range of number of dimensions"
             )
 
+        if weight_factor is not None and weight_factor != "all":
+            assert isinstance(weight_factor, (int, np.integer)) and (
+                0 <= weight_factor < self.ndims
+            ), "Parameter weight_factor is invalid; must be 'all' or a mode of the ktensor"
+
         # ensure that all factor_matrices are normalized
         for mode_idx in range(self.ndims):
             for r in range(self.ncomponents):
@@ -1597,6 +1607,9 @@ class ktensor:
         [[5. 6.]
          [7. 8.]]
         """
+        assert isinstance(mode, (int, np.integer)) and (
+            0 <= mode < self.ndims
+        ), "Parameter mode is invalid; must be a mode of the ktensor"
         for r in range(self.ncomponents):
             self.factor_matrices[mode][:, [r]] = (
                 self.factor_matrices[mode][:, [r]] * self.weights[r]
@@ -2240,6 +2253,7 @@ class ktensor:
         assert np.all(
             modes[:-1] <= modes[1:]
         ), "Modes must be sorted in ascending order"
+        assert np.unique(modes).size == modes.size, "Modes must not be repeated"
 
         # Validate the whole request before anything is replaced
         needed = 0
